@@ -290,6 +290,12 @@ class Session:
         for rs in (getattr(self, 'last_out', None) or {}).values():
             for r in rs:
                 walk(r)
+        al = getattr(self.impl.clock, 'aliased_results', None)
+        if al:
+            where = al[0]
+            del al[:]
+            raise Divergence(self.index, ev, 'aliasing', {'result aliases stored value': 'the command returned the container stored at %r itself; it is converted '
+                                                          'for the caller after the server lock is released' % (where,)}, 'replies are values')
 
     def compare_snap(self, ev):
         self.check_no_aliasing(ev)
